@@ -104,6 +104,9 @@ def check(prop, tier, seed, repo, vacuity=True, update_baseline=False):
     cfg = PROPS[prop]
     os.makedirs(EVID, exist_ok=True)
     os.makedirs(os.path.join(BUILD, "replay"), exist_ok=True)
+    for f in os.listdir(os.path.join(BUILD, "replay")):
+        if f.startswith(prop + "-"):
+            os.remove(os.path.join(BUILD, "replay", f))
     results, undecided = [], []
     for unit in cfg.get("units", []):
         try:
